@@ -37,4 +37,20 @@ theorem margins_eq_translated (c : OldCfg) :
 
 example : Translated.format_render_horizontal false false 11 4 = (3, 4) := by decide
 
+
+/-- TRANSLATION TIE `_init_render_`: the model's size validation is what the translated `if check_size:` block of
+    `Renderable._init_render_` decides on the padded size of the RESOLVED padding (whatever its shape: relative, partly
+    relative, absolute, exact, third-party), with the flags `draw()` passes
+    (`check_size = animation or check_size`, `allow_scroll = not animation and allow_scroll`) -/
+theorem validate_eq_translated (c : NewCfg) (padding : Bool) :
+    (c.validate = none ↔
+      Translated.init_render_check (c.animation || c.checkSize) (!c.animation && c.allowScroll) padding
+        ((c.Wp : Int), (c.Hp : Int)) ((c.termW : Int), (c.termH : Int)) = .ok true) ∧
+    (c.validate ≠ none →
+      Translated.init_render_check (c.animation || c.checkSize) (!c.animation && c.allowScroll) padding
+        ((c.Wp : Int), (c.Hp : Int)) ((c.termW : Int), (c.termH : Int)) = .error "RenderSizeOutofRangeError") := by
+  unfold NewCfg.validate Translated.init_render_check
+  by_cases h1 : c.Wp > c.termW <;> by_cases h2 : c.Hp > c.termH <;>
+  cases c.animation <;> cases c.checkSize <;> cases c.allowScroll <;> simp [h1, h2] <;> omega
+
 end TIV.C06
